@@ -168,6 +168,27 @@ def emitPartial (tag k : Nat) (hdr body : Bytes) : Bytes :=
   else
     (192 + tag).toUInt8 :: partialOctet k :: (hdr ++ body.take first ++ emitTail k (body.drop first))
 
+/-- a new-format fixed length in a chosen (possibly non-minimal) form: 1, 2 or 5 octets -/
+def encodeNewLenAs (form n : Nat) : Option Bytes :=
+  match form with
+  | 1 => if n < 192 then some [n.toUInt8] else none
+  | 2 => if 192 ≤ n ∧ n < 8384 then some [((n - 192) / 256 + 192).toUInt8, ((n - 192) % 256).toUInt8] else none
+  | 5 => if n < 4294967296 then some (255 :: be32 n) else none
+  | _ => none
+
+/-- an old-format fixed length with length-type `lt` (0: one octet, 1: two, 2: four) -/
+def encodeOldLenAs (lt n : Nat) : Option Bytes :=
+  match lt with
+  | 0 => if n < 256 then some [n.toUInt8] else none
+  | 1 => if n < 65536 then some (be16 n) else none
+  | 2 => if n < 4294967296 then some (be32 n) else none
+  | _ => none
+
+/-- a fixed-length packet in an arbitrary admissible header form -/
+def frameFixedAs (newFormat : Bool) (tag form : Nat) (body : Bytes) : Option Bytes :=
+  if newFormat then (encodeNewLenAs form body.length).map fun l => (192 + tag).toUInt8 :: (l ++ body)
+  else (encodeOldLenAs form body.length).map fun l => (128 + tag * 4 + form).toUInt8 :: (l ++ body)
+
 /-! ## the space of legal framings (independent of the emitters) -/
 
 /-- a segmentation: exponents of the partial chunks, in order; the remainder goes in a final
